@@ -78,6 +78,8 @@ type objRT struct {
 
 	started     bool
 	startGen    int
+	startCalls  int                // Start calls begun so far
+	stopCalls   int                // stop calls begun so far
 	stopFailed  bool               // a stop call returned an error: the object is not restarted (known finding C09 WaitGroup reuse)
 	stopIdle    chan struct{}      // closed when the last in-progress stop call returns
 	startCancel context.CancelFunc // cancels the context passed to the last Start
@@ -410,6 +412,10 @@ func (s *Sim) doAction(a *Action) {
 			return
 		}
 		r := s.apiBegin(o, "Start", a)
+		s.mu.Lock()
+		o.startCalls++
+		stopsAtCall := o.stopCalls
+		s.mu.Unlock()
 		sctx, scancel := context.WithCancel(context.Background())
 		// the run's context ends by deadline if the plan's next cancellation of this instance says so
 		for i := range s.plan.Timeline {
@@ -422,7 +428,11 @@ func (s *Sim) doAction(a *Action) {
 		err := o.el.Start(sctx)
 		s.mu.Lock()
 		if err == nil {
-			o.started, o.stopped = true, false
+			// a stop call that began while this Start was under way (fired from one of Start's own log lines)
+			// takes effect after it: the object is then being stopped, not started
+			if o.stopCalls == stopsAtCall {
+				o.started, o.stopped = true, false
+			}
 			o.startGen++
 			o.startCancel = scancel
 		} else {
@@ -501,7 +511,9 @@ func (s *Sim) doAction(a *Action) {
 		}
 		o.inStop++
 		o.started = false
+		o.stopCalls++
 		sg := o.startGen
+		startsAtCall := o.startCalls
 		if a.Kind == ActStopCtx && a.DeleteKey {
 			o.delDepth++
 		}
@@ -544,7 +556,9 @@ func (s *Sim) doAction(a *Action) {
 		if a.Kind == ActStopCtx && a.DeleteKey {
 			o.delDepth--
 		}
-		if err == nil && o.startGen == sg {
+		// (a Start that returned meanwhile but whose call had begun before this stop call began is the earlier
+		// of the two: this stop took effect after it)
+		if err == nil && (o.startGen == sg || o.startCalls == startsAtCall) {
 			o.stopped = true
 			o.byCancel = a.Kind == ActCancelCtx
 		}
